@@ -142,6 +142,25 @@ pub fn pair_field_inputs(base: &Base) -> Vec<Input> {
     out
 }
 
+/// WELL-FORMED, both dimensions of the frame x layer table at the format's maximum: 65535 frames x 65536 layers,
+/// an empty image cel on the top layer in frame 0 and a linked cel to it in every other frame (a 4.2 MB file).
+pub fn sparse_table_max_bytes() -> Vec<u8> {
+    let (nf, nl) = (65_535usize, 65_536usize);
+    let mut sp = Sprite::blank(1, 1, Fmt::Rgba, nf);
+    for _ in 0..nl {
+        sp.layers.push(LayerM::image(""));
+    }
+    let top = (nl - 1) as u16;
+    sp.cels.insert((0, top), CelM { x: 0, y: 0, opacity: 255, content: CelContentM::Image { w: 0, h: 0, pixels: vec![] }, ud: None });
+    for f in 1..nf {
+        sp.cels.insert((f as u16, top), CelM { x: 0, y: 0, opacity: 255, content: CelContentM::Link(0), ud: None });
+    }
+    let mut v = Variation::none();
+    v.default_storage = Storage::Raw;
+    let mut r = Rng::new(4);
+    encode(&crate::program::compile(&sp, &mut r, &v)).0
+}
+
 /// Every string of the file (names, user-data text) overwritten in place with byte sequences that are not UTF-8.
 pub fn string_inputs(base: &Base) -> Vec<Input> {
     let mut out = Vec::new();
@@ -275,7 +294,7 @@ fn chunk_positions(spec: &FileSpec, kind: &str) -> Vec<(usize, usize)> {
     v
 }
 
-pub const MODEL_OPS: [&str; 57] = [
+pub const MODEL_OPS: [&str; 59] = [
     "cel_payload_short",
     "cel_payload_long",
     "cel_decl_bigger",
@@ -333,6 +352,8 @@ pub const MODEL_OPS: [&str; 57] = [
     "late_link_to_missing",
     "late_tileset_mismatch",
     "declared_frames_tall_stack",
+    "tilemap_extent_i32",
+    "tileset_strip_height_u32",
 ];
 
 fn fmt_of(spec: &FileSpec) -> Fmt {
@@ -735,6 +756,55 @@ pub fn model_input(base: &Base, op: usize, rng: &mut Rng, deep_groups: usize) ->
                 at += 1;
             }
             label = format!("{} user-data records after a tags({}) chunk", n + 1, n);
+        }
+        "tileset_strip_height_u32" => {
+            // self-consistent: 65538 tiles of 1x65535 indexed pixels - all tiles stacked are 2^32 + 65534 pixel rows,
+            // more than an image height can hold (4 GiB of pixel data, ~4 MB compressed; thorough tier only)
+            let mut sp = Sprite::blank(1, 1, Fmt::Indexed, 1);
+            sp.transparent_index = 0;
+            let mut pal = std::collections::BTreeMap::new();
+            pal.insert(0u32, PalEntryM { rgba: [0, 0, 0, 0], name: None });
+            pal.insert(1u32, PalEntryM { rgba: [9, 9, 9, 255], name: None });
+            sp.palette = Some(pal);
+            sp.layers.push(LayerM::image("l"));
+            let count = 65_538u32;
+            sp.tilesets.push(TilesetM { id: 0, flags: TS_EMBED | TS_ZERO_EMPTY, count, tw: 1, th: 65_535, base_index: 1, name: "t".into(), ext: None, pixels: vec![0u8; count as usize * 65_535] });
+            let mut r = Rng::new(5);
+            let mut v = Variation::none();
+            v.default_storage = Storage::Raw;
+            spec = crate::program::compile(&sp, &mut r, &v);
+            for fr in spec.frames.iter_mut() {
+                for c in fr.chunks.iter_mut() {
+                    if let ChunkSpec::Tileset { level, .. } = &mut c.spec {
+                        *level = 6;
+                    }
+                }
+            }
+            label = format!("tileset of {} tiles of 1x65535 pixels (stacked height 2^32 + 65534)", count);
+        }
+        "tilemap_extent_i32" => {
+            // well-formed: a stored tilemap whose pixel extent (tiles x tile size) reaches 2^31 along one axis
+            // (65535-pixel tiles x 32770 tiles); nearly all of it lies off the 2x2 canvas
+            let wide = rng.chance(1, 2);
+            let mut sp = Sprite::blank(2, 2, Fmt::Rgba, 1);
+            let (tw, th) = if wide { (65_535u16, 1u16) } else { (1, 65_535) };
+            let mut pixels = vec![0u8; 65_535 * 4];
+            pixels.extend((0..65_535u32).flat_map(|i| [i as u8, (i >> 8) as u8, 9, 255]));
+            sp.tilesets.push(TilesetM { id: 0, flags: TS_EMBED | TS_ZERO_EMPTY, count: 2, tw, th, base_index: 1, name: "t".into(), ext: None, pixels });
+            let mut l = LayerM::image("tm");
+            l.kind = LayerKind::Tilemap(0);
+            sp.layers.push(l);
+            let n = *rng.pick(&[32_769u16, 32_770, 40_000]);
+            let (mw, mh) = if wide { (n, 1u16) } else { (1, n) };
+            let mut tiles = vec![0u32; n as usize];
+            tiles[0] = 1;
+            tiles[n as usize - 1] = 1;
+            sp.cels.insert((0, 0), CelM { x: if wide { *rng.pick(&[0i16, 32_767, -3]) } else { 0 }, y: if wide { 0 } else { *rng.pick(&[0i16, 32_767, -3]) }, opacity: 255, content: CelContentM::Tilemap { w: mw, h: mh, tiles, masks: [0x1fff_ffff, 0x2000_0000, 0x4000_0000, 0x8000_0000] }, ud: None });
+            let mut r = Rng::new(5);
+            let mut v = Variation::none();
+            v.default_storage = Storage::Zlib(6);
+            spec = crate::program::compile(&sp, &mut r, &v);
+            label = format!("tilemap of {}x{} tiles of {}x{} pixels (extent >= 2^31)", mw, mh, tw, th);
         }
         "declared_frames_tall_stack" => {
             // hundreds of layers, two real frames with a cel on the top layer (image, then linked / image / tilemap),
